@@ -484,6 +484,115 @@ def run_merge_unit(ctx, quick):
     ctx.corr_report("merge_files", mism, viol)
 
 
+# ------------------------------------------------------------------ whole files: per-chromosome printers + merge_files (round 3)
+PRE_FILES = """From IQ Require Import Exons Gff GffThm GffMulti GffFiles GffMultiSpec.
+Open Scope Z_scope.
+Definition T := (list chrom * (list line * list line))%type.
+Definition check (c:T) : bool := files_check c.
+(* C03_extended_file_is_reference_plus_novel_all_chromosomes, C03_transcript_ids_once_per_file, C03_one_dump_gene_contains_all_transcripts and
+   C03_gene_contains_all_transcripts_iff (per chromosome of the models file), evaluated on the implementation's two merged files *)
+Definition prop (c:T) : bool := files_prop c.
+"""
+
+def run_files_unit(ctx, quick):
+    """REAL GFFPrinter objects per chromosome (models printer: one dump per region; extended printer: one dump of reference + novel
+    models), REAL merge_files(copy_header=False) over the part files, both merged files parsed back and compared with GffFiles.merged"""
+    from src.transcript_printer import GFFPrinter
+    from src.gene_info import TranscriptModel, TranscriptModelType
+    from src.file_utils import merge_files
+    rnd = section_rnd(ctx, "files"); cases = []
+    pool = ["chr1", "chr2", "chr10", "chr11", "chrX", "chrM", "1", "2", "10", "X", "chr1.2", "chr1_2", "scaffold_12", "scaffold_2", "Chr3", "chr03"]
+    d = tempfile.mkdtemp(prefix="c03files_", dir=ctx.scratch)
+    def tm(md):
+        return TranscriptModel(md["chr"], md["strand"], md["tid"], md["gene"], list(md["exons"]),
+                               TranscriptModelType.known if md["known"] else TranscriptModelType.novel_not_in_catalog, other_features=list(md["other"]))
+    def rnd_exons(lo, hi, n):
+        c = sorted(rnd.sample(range(lo, hi), 2 * n)); return [(c[2 * i], c[2 * i + 1]) for i in range(n)]
+    def world(it, fixed=None):
+        sub = os.path.join(d, "w%d" % it); os.makedirs(sub)
+        label = "S"
+        chr_ids = fixed["chr_ids"] if fixed else rnd.sample(pool, rnd.randint(1, 4))
+        chroms = []; k = [0]
+        for ci, chr_id in enumerate(chr_ids):
+            if fixed: chroms.append(fixed["make"](chr_id)); continue
+            genes = ["%s_G%d" % (chr_id, i) for i in range(rnd.randint(0, 3))]
+            regions = {}; ref = []
+            for g in genes:
+                lo = rnd.randint(1, 4000); hi = lo + rnd.randint(200, 3000); regions[g] = (lo, hi); st = rnd.choice("+-")
+                for i in range(rnd.randint(1, 3)):
+                    k[0] += 1; ex = rnd_exons(lo, hi + 1, rnd.randint(1, 4)); ex[0] = (lo, ex[0][1]) if i == 0 else ex[0]
+                    r = rnd.random()
+                    if r < .05 and len(ex) > 1: ex = ex[::-1]                        # fails validate_exons: never printed
+                    other = [(ex[0][0], ex[0][1], "CDS")] if rnd.random() < .3 and ex[0][0] <= ex[0][1] else []
+                    ref.append(dict(chr=chr_id, strand=st, tid="R%d" % k[0], gene=g, known=True, exons=ex, other=other))
+            has_ref = bool(genes)
+            calls = []
+            for c in range(rnd.randint(0, 3)):
+                ms = []
+                for i in range(rnd.randint(0, 4)):
+                    if ref and rnd.random() < .4:
+                        m = rnd.choice(ref)
+                        if any(m["tid"] == x["tid"] for _, xs in calls for x in xs) or any(m["tid"] == x["tid"] for x in ms): continue
+                        ms.append(m)
+                    else:
+                        k[0] += 1
+                        g = rnd.choice(genes) if genes and rnd.random() < .6 else "novel_gene_%s_%d" % (chr_id, rnd.randint(1, 3))
+                        lo, hi = regions.get(g, (rnd.randint(1, 4000), 0)); hi = hi or lo + 2000
+                        a = max(1, lo - rnd.choice([0, 0, 300])); b = hi + rnd.choice([0, 0, 0, 500])       # sometimes beyond the annotated range
+                        ex = rnd_exons(a, b + 1, rnd.randint(1, 4))
+                        if rnd.random() < .04 and len(ex) > 1: ex = ex[::-1]
+                        ms.append(dict(chr=chr_id, strand=rnd.choice("+-"), tid="N%d" % k[0], gene=g, known=False, exons=ex, other=[]))
+                calls.append((dict(chr=chr_id, regions={g: regions[g] for g in genes if rnd.random() < .8}, empty=(not genes) or rnd.random() < .1), ms))
+            chroms.append(dict(chr=chr_id, ref=ref if has_ref else None, calls=calls, gi_ext=dict(chr=chr_id, regions=regions, empty=not has_ref)))
+        allg = set(); 
+        for ch in chroms:
+            allg.update(ch["gi_ext"]["regions"]); allg.update(m["gene"] for m in (ch["ref"] or []))
+            for gi, ms in ch["calls"]: allg.update(gi["regions"]); allg.update(m["gene"] for m in ms)
+        genec = Codes(allg); chrc = Codes(); tidc = Codes()
+        for ch in chroms: chrc(ch["chr"])
+        # the workers
+        for ch in chroms:
+            name = "%s_%s" % (label, ch["chr"])
+            p1 = GFFPrinter(sub, name, FakeIds(), output_r2t=False)
+            p2 = GFFPrinter(sub, name, FakeIds(), gtf_suffix=".extended_annotation.gtf", output_r2t=False)
+            novel = []
+            for gi, ms in ch["calls"]:
+                p1.dump(FakeGI(gi["chr"], gi["regions"], gi["empty"]), [tm(m) for m in ms])
+                novel += [m for m in ms if not m["known"]]
+            ge = ch["gi_ext"]
+            p2.dump(FakeGI(ge["chr"], ge["regions"], ge["empty"]), [tm(m) for m in (ch["ref"] or []) + novel])
+            p1.out_gff.close(); p2.out_gff.close()
+        files = []
+        for suffix in (".transcript_models.gtf", ".extended_annotation.gtf"):
+            fname = os.path.join(sub, label + suffix)
+            with open(fname, "w") as out:
+                merge_files(fname, label, [ch["chr"] for ch in chroms], out, copy_header=False)
+            files.append(open(fname).read())
+        shutil.rmtree(sub, ignore_errors=True)
+        mfile = parse_gtf_lines(files[0], chrc, genec, tidc); efile = parse_gtf_lines(files[1], chrc, genec, tidc)
+        def cgi(gi): return "(mkG %s %s %s)" % (cz(chrc(gi["chr"])), cbool(gi["empty"]), clist(sorted(gi["regions"].items()), lambda kv: "(%s,%s)" % (cz(genec(kv[0])), civ(kv[1])), "(Z*(Z*Z))"))
+        def ciso(m): return "(mkI %s %s %s %s %s)" % (cz(tidc(m["tid"])), cz(genec(m["gene"])), cz(STRAND[m["strand"]]), civs(m["exons"]), clist(m["other"], cf3, "(Z*Z*Z)"))
+        def cchrom(ch):
+            calls = clist(ch["calls"], lambda c: "(%s, %s)" % (cgi(c[0]), clist(c[1], lambda m: cmodel(m, chrc, genec, tidc), "tmodel")), "(ginfo * list tmodel)")
+            ref = "None" if ch["ref"] is None else "(Some (mkRef %s %s))" % (cz(chrc(ch["chr"])), clist(ch["ref"], ciso, "refiso"))
+            return "(mkC %s %s %s %s)" % (cstr_bytes(os.path.join(sub, "%s_%s" % (label, ch["chr"]))), calls, ref, cgi(ch["gi_ext"]))
+        term = "(%s, (%s, %s))" % (clist(chroms, cchrom, "chrom"), clist(mfile, cline, "line"), clist(efile, cline, "line"))
+        two_calls = any(len(set(ci for ci, (gi, ms) in enumerate(ch["calls"]) for m in ms if m["gene"] == g)) > 1 for ch in chroms for g in allg)
+        cases.append((term, dict(chr_ids=[ch["chr"] for ch in chroms], chromosomes=chroms, models_file=files[0].splitlines(), extended_file=files[1].splitlines(), gene_in_two_calls=two_calls)))
+    # the recorded finding (a gene processed in two regions) as a fixed world, then random worlds
+    def finding(chr_id):
+        known = dict(chr=chr_id, strand="+", tid="R1", gene="BIG", known=True, exons=[(10001, 10300), (12001, 12300), (14001, 14500)], other=[])
+        late = dict(chr=chr_id, strand="+", tid="N2", gene="BIG", known=False, exons=[(70001, 70300), (72001, 72300), (79501, 81000)], other=[])
+        gi = dict(chr=chr_id, regions={"BIG": (10001, 80000)}, empty=False)
+        return dict(chr=chr_id, ref=[known], calls=[(gi, [known]), (gi, [late])], gi_ext=gi)
+    world(0, dict(chr_ids=["chrA"], make=finding))
+    for it in range(1, 120 if quick else 1200): world(it)
+    shutil.rmtree(d, ignore_errors=True)
+    ctx.rule("files: 1-4 chromosomes (names with digits, dots, underscores, mixed case), per chromosome REAL GFFPrinter pairs (models printer: 0-3 dump calls with known and novel models, genes recurring across calls, novel models reaching beyond the annotated range, rare unsorted exon lists; extended printer: one dump of reference + novel models) and REAL merge_files(copy_header=False); both merged files parsed back; first case = the two-region gene of finding #24; non-trivial = some gene has models in two calls")
+    mism, viol = ctx.corr("files", PRE_FILES, cases, shard=20, nontrivial=lambda o: o["gene_in_two_calls"], ctype="T")
+    ctx.corr_report("files", mism, viol)
+
+
 PRE_EXT = """From IQ Require Import Exons Gff.
 Open Scope Z_scope.
 Definition f3_eqb (a b:f3) : bool := let '(a1,a2,a3) := a in let '(b1,b2,b3) := b in (a1 =? b1) && (a2 =? b2) && (a3 =? b3).
@@ -992,7 +1101,7 @@ def run(ctx):
     logging.getLogger('IsoQuant').setLevel(logging.CRITICAL)
     ctx.prepare("C03.v")
     ctx.exhaustive = False
-    for f in (run_dump_unit, run_ends_unit, run_joiner_unit, run_merge_unit, run_extended_unit, run_pipeline):
+    for f in (run_dump_unit, run_ends_unit, run_joiner_unit, run_merge_unit, run_files_unit, run_extended_unit, run_pipeline):
         t0 = time.time()
         try: f(ctx, quick)
         except Exception:
@@ -1010,7 +1119,7 @@ def run(ctx):
 
 
 SECTIONS = {"dump": run_dump_unit, "validate_exons": run_dump_unit, "correct_novel_transcript_ends": run_ends_unit, "get_exons": run_ends_unit, "gene_joiner": run_joiner_unit,
-            "merge_files": run_merge_unit, "create_extended_storage": run_extended_unit, "dump_extended": run_extended_unit}
+            "merge_files": run_merge_unit, "files": run_files_unit, "create_extended_storage": run_extended_unit, "dump_extended": run_extended_unit}
 
 def replay(ctx, rep):
     """re-run only the section that produced the replay file (sections are seeded independently, so the same cases are regenerated)"""
